@@ -33,6 +33,7 @@ RULE = (
 )
 RULE += " " + 'Added after the seeding rounds: hidden names whose only dot is the leading one (.albumart); sub-directories that are symbolic links to a directory beside the song folder (native); stems containing letters that only a case-insensitive regex equates with i/s/k (dotted capital I, dotless i, long s, Kelvin sign).'
 RULE += " " + "Round 6: property values whose path runs through a regular file of the directory ('<file>/img/banner.png')."
+RULE += " " + "Round 7: in-memory cases in which the simfile directory is the root of the filesystem itself (path ''), names starting with blanks."
 ASSUMPTIONS = [
     "the documented patterns are: banner - stem contains 'banner' or ends with 'bn'; background - contains 'background' or ends with 'bg'; cdtitle - contains 'cdtitle'; jacket - starts with 'jk_' or contains 'jacket' or 'albumart'; cdimage - ends with '-cd'; disc - ends with ' disc' or ' title'; music - extension mp3/oga/ogg/wav; all on the lower-cased name",
     "which of several matching entries is returned is not claimed (membership is checked)",
